@@ -36,6 +36,7 @@ Definition prim_feat (p : prim) : string :=
   | PToInt | PToMI => "convert"
   | PNot | PBAnd | PBOr | PBEq | PBNe => "bool-op"
   | PCat | PLen | PSEq | PSNe => "string-op"
+  | PLCons _ | PLFirst _ | PLRest _ | PLLen _ | PLEmptyQ _ | PLRev _ | PLEq _ | PLNe _ | PLNth _ => "list-op"
   end.
 
 (* (features, literal classes, node count) *)
@@ -53,6 +54,8 @@ Fixpoint fe_e (e : expr) : list string * list string * nat :=
   | EIf c a b => add "if-expr" (join [fe_e c; fe_e a; fe_e b])
   | EAnd a b | EOr a b => add "and-or" (join [fe_e a; fe_e b])
   | ESeq ss e' => add "value-seq" (join (fe_e e' :: map fe_s ss))
+  | EMac _ e' => add "macro-call" (join [fe_e e'])
+  | EListLit _ es => add (match es with [] => "list-empty" | _ => "list-literal" end) (join (map fe_e es))
   end
 with fe_s (s : stmt) : list string * list string * nat :=
   let join (l : list (list string * list string * nat)) :=
@@ -66,12 +69,17 @@ with fe_s (s : stmt) : list string * list string * nat :=
   | SIf c a b => add "if-stmt" (join (fe_e c :: map fe_s a ++ map fe_s b))
   | SWhile c body => add "while" (join (fe_e c :: map fe_s body))
   | SFor lo hi body => add "for" (join (fe_e lo :: fe_e hi :: map fe_s body))
+  | SForIn _ l body => add "for-in-list" (join (fe_e l :: map fe_s body))
   | SBreak => (["break"], [], 1%nat)
   | SIterate => (["iterate"], [], 1%nat)
   | SReturn e => add "return" (join [fe_e e])
   | SExit c s' => add "exit" (join [fe_e c; fe_s s'])
   | SExitV c e => add "exit-value" (join [fe_e c; fe_e e])
   | SCall _ args => add "call-stmt" (join (map fe_e args))
+  | SError e => add "error" (join [fe_e e])
+  | SNever => (["never"], [], 1%nat)
+  | SThrow _ => (["throw"], [], 1%nat)
+  | STry body hs => add "try" (join (map fe_s body ++ flat_map (fun h => map fe_s (snd h)) hs))
   end.
 
 Definition fe_join (l : list (list string * list string * nat)) : list string * list string * nat :=
@@ -108,6 +116,8 @@ Fixpoint calls_e (n0 : nat) (e : expr) : bool :=
   | EIf c a b => (calls_e n0 c || calls_e n0 a || calls_e n0 b)%bool
   | EAnd a b | EOr a b => (calls_e n0 a || calls_e n0 b)%bool
   | ESeq ss e' => (existsb (calls_s n0) ss || calls_e n0 e')%bool
+  | EMac _ e' => calls_e n0 e'
+  | EListLit _ es => existsb (calls_e n0) es
   end
 with calls_s (n0 : nat) (s : stmt) : bool :=
   match s with
@@ -117,9 +127,12 @@ with calls_s (n0 : nat) (s : stmt) : bool :=
   | SIf c a b => (calls_e n0 c || existsb (calls_s n0) a || existsb (calls_s n0) b)%bool
   | SWhile c body => (calls_e n0 c || existsb (calls_s n0) body)%bool
   | SFor lo hi body => (calls_e n0 lo || calls_e n0 hi || existsb (calls_s n0) body)%bool
-  | SBreak | SIterate => false
+  | SForIn _ l body => (calls_e n0 l || existsb (calls_s n0) body)%bool
+  | SBreak | SIterate | SNever | SThrow _ => false
   | SExit c s' => (calls_e n0 c || calls_s n0 s')%bool
   | SExitV c e => (calls_e n0 c || calls_e n0 e)%bool
+  | SError e => calls_e n0 e
+  | STry body hs => (existsb (calls_s n0) body || existsb (fun h => existsb (calls_s n0) (snd h)) hs)%bool
   end.
 
 (* a definition that calls its own name *)
